@@ -4,6 +4,7 @@
 //          C  clear_gradients   I i / D i  independent / dependent    CI / CD  clear_independents / clear_dependents
 //          J  jacobian          P / U  pause_recording / continue_recording    O i  get_gradient(x[i])    K  counts
 //          A  create one more active scalar (adouble(0.0): records an empty statement)    W lhs q idx  append_derivative_dependence on lhs
+//          X  destroy the most recently created extra scalar (frees the top gradient index; max_gradient is unchanged until new_recording)
 // prints one token per observation: values, "E" for an exception, Jacobians as "[a b; c d]".
 #include <adept_arrays.h>
 #include <iostream>
@@ -50,6 +51,7 @@ int main(int argc, char** argv) {
         else if (t == "U") stack.continue_recording();
         else if (t == "O") { int i; is >> i; double g = 0; x(i).get_gradient(g); os << num(g) << " "; }
         else if (t == "A") { xp.push_back(new adouble(0.0)); }
+        else if (t == "X") { if ((int)xp.size() > ng) { delete xp.back(); xp.pop_back(); } }
         else if (t == "W") { int lhs, q, idx; is >> lhs >> q >> idx; stack.append_derivative_dependence(x(lhs).gradient_index(), x(idx).gradient_index(), q / 4.0); }
         else if (t == "K") os << "k" << stack.n_statements() - 1 << "/" << stack.n_operations() << " ";
         else if (t == "J") {
